@@ -8,7 +8,8 @@ specifies.
 * `GccArgs.parseArgs_eq_spec_partial`   argument-vector form: `parseArgs` = GCC's reading, on `clean` vectors
 * `GccArgs.parseArgs_eq_spec_counterexample`   the unrestricted statement is false of the code (F12)
 * `GccArgs.defines_normal_form`  `fsSetDefines` on the string `parseArgs` builds
-* `GccArgs.import_command_eq_spec`      both halves composed
+* `import_command_eq_spec`              both halves composed
+* `GccArgs.fix_0f74657_conservative`    the out-of-bounds repair changed no defined behaviour
 -/
 namespace Cppcheck.Shell
 open Cppcheck.Wire
@@ -74,11 +75,11 @@ theorem semicolon_define_counterexample :
     include paths, definitions, undefinitions and standard that GCC's reading of the vector specifies. -/
 theorem parseArgs_eq_spec_partial (args : List Str) (h : clean args = true)
     (hd : ∀ d ∈ (gcc args {}).defines, defOk d = true) :
-    parseArgs args = some (gcc args {}).toFS := by
+    parseArgs args = (gcc args {}).toFS := by
   have hl := loop_eq_gcc args h {}
   have h0 : ({} : Opts).toRaw = ({} : FS) := rfl
   rw [h0] at hl
-  simp only [parseArgs, hl, Option.map_some, Opts.toRaw, Opts.toFS, fsSetDefines_joinDefs _ hd]
+  simp only [parseArgs, hl, Opts.toRaw, Opts.toFS, fsSetDefines_joinDefs _ hd]
 
 /-- the hypotheses are satisfiable by a realistic command line using every option form -/
 example :
@@ -102,7 +103,7 @@ theorem spec_of_render (l : List Opt) (h : ∀ x ∈ l, x.wf = true) : gcc (rend
     that were put into it -/
 theorem parseArgs_render (l : List Opt) (hwf : ∀ x ∈ l, x.wf = true) (hc : clean (render l) = true)
     (hd : ∀ d ∈ (meaning l {}).defines, defOk d = true) :
-    parseArgs (render l) = some (meaning l {}).toFS := by
+    parseArgs (render l) = (meaning l {}).toFS := by
   have := parseArgs_eq_spec_partial (render l) hc (by rw [spec_of_render l hwf]; exact hd)
   rw [spec_of_render l hwf] at this
   exact this
@@ -121,13 +122,13 @@ theorem sepOpts_otherOk : sepOpts.all otherOk = true := by decide +kernel
     read as `/D` + `ownloads/a.o`. -/
 theorem slash_prefix_counterexample :
     parseArgs (["cc", "-c", "a.c", "-o", "/Downloads/a.o", "-DREAL=1"].map String.toList)
-      = some { defs := "ownloads/a.o=1;REAL=1".toList }
+      = { defs := "ownloads/a.o=1;REAL=1".toList }
     ∧ (gcc (["cc", "-c", "a.c", "-o", "/Downloads/a.o", "-DREAL=1"].map String.toList) {}).toFS
       = { defs := "REAL=1".toList } := by
   decide +kernel
 
 theorem parseArgs_eq_spec_counterexample :
-    ¬ ∀ args : List Str, (∀ d ∈ (gcc args {}).defines, defOk d = true) → parseArgs args = some (gcc args {}).toFS := by
+    ¬ ∀ args : List Str, (∀ d ∈ (gcc args {}).defines, defOk d = true) → parseArgs args = (gcc args {}).toFS := by
   intro h
   have h1 := h (["cc", "-c", "a.c", "-o", "/Downloads/a.o", "-DREAL=1"].map String.toList) (by decide +kernel)
   rw [slash_prefix_counterexample.1, slash_prefix_counterexample.2] at h1
@@ -135,12 +136,24 @@ theorem parseArgs_eq_spec_counterexample :
 
 /-- the same class hits every macOS database: a source under `/Users` becomes the undef `sers/…` -/
 theorem slash_prefix_users_example :
-    parseArgs (["clang", "-c", "/Users/me/a.c"].map String.toList) = some { undefs := ["sers/me/a.c".toList] } := by
+    parseArgs (["clang", "-c", "/Users/me/a.c"].map String.toList) = { undefs := ["sers/me/a.c".toList] } := by
   decide +kernel
 
-/-- a vector ending in a bare option name makes the code read `args[args.size()]` -/
-theorem trailing_bare_option_oob : parseArgs (["cc", "-c", "a.c", "-I"].map String.toList) = none := by
+/-- a vector ending in a bare option name: the trailing name is ignored (commit 0f74657), as in the specification -/
+theorem trailing_bare_option_ignored :
+    parseArgs (["cc", "-c", "a.c", "-DX", "-I"].map String.toList) = { defs := "X=1".toList } ∧
+    clean (["cc", "-c", "a.c", "-DX", "-I"].map String.toList) = true := by
   decide +kernel
+
+/-- before commit 0f74657 the same vector made `getOptArg` bind `args[args.size()]` -/
+theorem trailing_bare_option_oob_before_0f74657 :
+    Before0f74657.loop (["cc", "-c", "a.c", "-DX", "-I"].map String.toList) {} = none := by
+  decide +kernel
+
+/-- the repair is conservative: wherever the old loop had defined behaviour the new one gives the same result -/
+theorem fix_0f74657_conservative (args : List Str) (fs r : FS) (h : Before0f74657.loop args fs = some r) :
+    loop args fs = r :=
+  before_loop_defined args fs r h
 
 end Cppcheck.GccArgs
 
@@ -150,7 +163,7 @@ open Cppcheck.Wire Cppcheck.Shell Cppcheck.GccArgs
 /-- what `importCompileCommands` does with the "command" string of an entry -/
 def importCommand (cmd : Str) : Option FS :=
   match collectArgs cmd with
-  | .ok args => parseArgs args
+  | .ok args => some (parseArgs args)
   | .missingQuote => none
 
 /-- **C32, composed.**  A command string quoted from a clean vector yields the specified options. -/
@@ -158,6 +171,6 @@ theorem import_command_eq_spec (l : List (Style × Nat × Str)) (hq : ∀ x ∈ 
     (h : clean (l.map (·.2.2)) = true) (hd : ∀ d ∈ (Spec.gcc (l.map (·.2.2)) {}).defines, defOk d = true) :
     importCommand (quote l) = some (Spec.gcc (l.map (·.2.2)) {}).toFS := by
   simp only [importCommand, split_quote l hq]
-  exact parseArgs_eq_spec_partial _ h hd
+  exact congrArg some (parseArgs_eq_spec_partial _ h hd)
 
 end Cppcheck
